@@ -294,8 +294,7 @@ class Scripted(BaseAlgorithm):
         t = self.interface.current_time
         if self.observer is not None:
             self.observer(self, active_sessions)
-        if self.crash_at is not None and t == self.crash_at and not self.crashed:
-            self.crashed = True
+        if crash_due(self, t):
             raise Crash("scripted crash at %d" % t)
         if self.malformed is not None and t == self.malformed["t"] and not self.malformed_done:
             self.malformed_done = True
@@ -330,6 +329,25 @@ class Crash(Exception):
     pass
 
 
+def crash_due(sched, t):
+    """crash_at is one period (the scheduler raises once, there) or a collection of periods
+    (it raises once in each of them: a run interrupted several times)."""
+    ca = sched.crash_at
+    if ca is None:
+        return False
+    if isinstance(ca, (list, tuple, set, frozenset)):
+        done = sched.__dict__.setdefault("crashed_at", set())
+        if t in ca and t not in done:
+            done.add(t)
+            sched.crashed = True
+            return True
+        return False
+    if t == ca and not sched.crashed:
+        sched.crashed = True
+        return True
+    return False
+
+
 class Wrapped(BaseAlgorithm):
     """Delegates to a bundled algorithm and lets an observer look at every call."""
 
@@ -351,8 +369,7 @@ class Wrapped(BaseAlgorithm):
         t = self.interface.current_time
         if self.observer is not None:
             self.observer(self, active_sessions)
-        if self.crash_at is not None and t == self.crash_at and not self.crashed:
-            self.crashed = True
+        if crash_due(self, t):
             raise Crash("wrapped crash at %d" % t)
         out = self.inner.schedule(active_sessions)
         self.submitted[t] = out
